@@ -338,7 +338,6 @@ impl RoleStore {
 //@ within impl RoleStore
 //@ fn has_role
 //@ sig fn has_role(&self, authority: &Pubkey, role: &str) -> Result<bool>
-//@ sub err!\(E::Other\) => Err(E::Other)
     pub fn has_role(&self, authority: &Pubkey, role: &Name) -> (r: Result<bool, E>)
         requires store_wf(*self)
         ensures
@@ -353,7 +352,6 @@ impl RoleStore {
 //@ within impl RoleStore
 //@ fn grant
 //@ sig fn grant(&mut self, authority: &Pubkey, role: &str) -> Result<()>
-//@ sub err!\(E::Other\) => Err(E::Other)
     pub fn grant(&mut self, authority: &Pubkey, role: &Name) -> (r: Result<(), E>)
         requires store_wf(*old(self))
         ensures
@@ -374,7 +372,6 @@ impl RoleStore {
 //@ within impl RoleStore
 //@ fn revoke
 //@ sig fn revoke(&mut self, authority: &Pubkey, role: &str) -> Result<()>
-//@ sub err!\(E::Other\) => Err(E::Other)
     pub fn revoke(&mut self, authority: &Pubkey, role: &Name) -> (r: Result<(), E>)
         requires store_wf(*old(self))
         ensures
@@ -434,7 +431,6 @@ impl Store {
 //@ within impl Store
 //@ fn has_role
 //@ sig fn has_role(&self, authority: &Pubkey, role: &str) -> Result<bool>
-//@ sub err!\(E::Other\) => Err(E::Other)
     pub fn has_role(&self, authority: &Pubkey, role: &Name) -> (r: Result<bool, E>)
         requires store_wf(self.role)
         ensures
